@@ -822,6 +822,8 @@ def get_cflags(
             "-Wno-unused-command-line-argument",
             "-Wno-unknown-warning-option",
             "-Wno-unused-but-set-variable",
+            # Copy propagation can turn `y = x; x == y` into a C self-comparison
+            "-Wno-tautological-compare",
             "-Wno-ignored-optimization-argument",
             # GCC at -O3 false-positives on struct hack (items[1]) in vec buffers
             "-Wno-array-bounds",
